@@ -117,7 +117,8 @@ struct DiskEngine : Engine {
                 if (!writer) continue;
                 std::unique_ptr<PDU> pdu; try { pdu.reset(construct(dlt, f)); } catch (malformed_packet&) {}
                 if (!pdu) { st.inc("probe.generated_frame_does_not_parse"); continue; }
-                std::unique_ptr<PDU> cl(pdu->clone()); PDU::serialization_type ser = cl->serialize();
+                // a parsed packet whose serialize() throws cannot be written at all (C02's subject): skipped, counted
+                std::unique_ptr<PDU> cl(pdu->clone()); PDU::serialization_type ser; try { ser = cl->serialize(); } catch (exception_base&) { st.inc("probe.parsed_frame_not_serializable"); continue; }
                 Written w; w.sec = sec; w.usec = usec; w.bytes.assign(ser.begin(), ser.end()); w.len = (uint32_t)w.bytes.size();
                 if (wkind == 0) { Packet pk(pdu.release(), Timestamp(std::chrono::microseconds((int64_t)sec * 1000000 + usec)), Packet::own_pdu()); writer->write(pk); }
                 else {   // the clock-stamped overloads: write(PDU&), write(T&) through a pointer, write(range)
